@@ -30,7 +30,7 @@ def _segment_case(dim):
     n = dim + 1
 
     @case("C16", "segment.contains.online.%dd" % dim, names("a", n) + names("b", n) + ["al", "be"], mode="real", functions=FSEG, timeout=120,
-          max_paths=64, also=("C03",))
+          max_paths=64, also=("C03",), share=True)
     def _(ctx):
         """p = al*a + be*b on the line of a finite segment ab (arbitrary homogeneous representatives):
         contained  <=>  the affine parameter t = be*bz/(al*az+be*bz) lies in [0,1]"""
@@ -110,7 +110,7 @@ def _bary_spec(ctx, a, b, c, p):
 
 
 @case("C16", "triangle.contains.2d", names("a", 2) + names("b", 2) + names("c", 2) + names("p", 2) + ["sa", "sb", "sc", "sp"], mode="real",
-      functions=["geometer.shapes.Triangle.contains"], timeout=120, max_paths=200, also=("C03",))
+      functions=["geometer.shapes.Triangle.contains"], timeout=120, max_paths=200, also=("C03",), share=True)
 def triangle_contains(ctx):
     """vertices and query point with arbitrary non-zero homogeneous scale factors"""
     geometer, gs = _g()
